@@ -14,5 +14,32 @@ pub proof fn lemma_recompressor_preserves_payload(c: TileConverter, src: TileCom
 
 // vacuity: the codec axioms are satisfiable for at least the trivial compression
 pub proof fn witness_decode() ensures decode(TileCompression::Uncompressed, seq![1u8]) == Some(seq![1u8]) { }
+
+// assumption A-convstream-1 (as A-overlay-1): inside a bulk stream a codec step does not fail (the real code unwraps it there)
+#[verifier::external_body]
+pub fn vcodec_ok(r: Result<Blob, VErr>) -> (b: Blob) ensures r is Ok, b == r.unwrap() { unimplemented!() }
+impl TileConverter {
+// R10: the per-tile closure of TileConverter::process_stream (the path every container writer and the converting reader's stream use);
+// R6: `self.pipeline.clone()` (Arc refcount bump; Arc erased as everywhere in this fragment) -> the same vector
+//@extract closure file="versatiles_container/src/container/tile_converter.rs" scope="impl TileConverter" name="process_stream" head="move |mut blob|" sig="pub fn stream_item(&self, mut blob: Blob) -> Blob" pre=""
+//@rewrite "pipeline.iter()" => "self.pipeline.iter()" R6
+//@rewrite "blob = f.run(blob).unwrap();" => "blob = vcodec_ok(f.run(blob));" R7
+//@ret r
+//@spec
+		// C04: EVERY tile of a stream goes through the whole pipeline — the same relation process_blob establishes for a single tile
+		ensures pipe_rel(self.pipeline@, blob@, r@)
+//@start
+		let ghost blob0 = blob@;
+		proof { assert(self.pipeline@.take(self.pipeline@.len() as int) =~= self.pipeline@); }
+//@loop 1 iter=it
+			invariant pipe_rel(self.pipeline@.take(it.index@ as int), blob0, blob@),
+//@loopstart 1
+			let ghost pre = blob@;
+//@loopend 1
+			proof { let p = self.pipeline@; let i = it.index@ as int;
+				assert(p.take(i + 1).drop_last() =~= p.take(i)); assert(p.take(i + 1).last() == p[i]);
+				assert(step_rel(p[i], pre, blob@)); }
+//@end
+}
 } // verus!
 fn main() {}
